@@ -187,3 +187,340 @@ Proof.
   intros Hq; injection Hq as <-. auto.
 Qed.
 End PEXEC.
+
+(* ---------- the bridge ---------- *)
+Section BRIDGE.
+Variable c : cfg.
+Variable br bd : Z.                                  (* the declared budgets handed to the reference executor *)
+Let N := max_n c.
+Let S_ := total c.
+Let tj := tr c.
+Hypothesis HN : 1 <= N.
+Hypothesis HS : 2 <= N -> 1 <= S_.
+Hypothesis Hlab : Forall (fun l => l = RAM \/ l = DISK) (labels c).
+Hypothesis Hbr : count_st RAM (labels c) <= br.
+Hypothesis Hbd : count_st DISK (labels c) <= bd.
+
+Definition pms : xparams := {| xN := N; keep_all_deps := false; budget_ram := Some br; budget_disk := Some bd |}.
+Definition lb : nat -> storage := lab (labels c).
+Lemma lb_cp d : lb d = RAM \/ lb d = DISK.
+Proof.
+  unfold lb, lab. destruct (Nat.lt_ge_cases d (length (labels c))) as [Hd|Hd].
+  - rewrite Forall_forall in Hlab. apply Hlab. apply nth_In. exact Hd.
+  - rewrite nth_overflow by exact Hd. auto.
+Qed.
+Lemma lb_is_cp d : is_cp (lb d) = true.
+Proof. destruct (lb_cp d) as [-> | ->]; reflexivity. Qed.
+Lemma label_ok d : (d < length (labels c))%nat -> label c d = Ok (lb d).
+Proof.
+  intros Hd. unfold label, lb, lab. destruct (nth_error (labels c) d) eqn:E.
+  - rewrite (nth_error_nth _ _ _ E). reflexivity.
+  - apply nth_error_None in E. lia.
+Qed.
+Lemma S_nonneg : 0 <= S_. Proof. unfold S_, total. lia. Qed.
+
+Definition pcP (q : Multistage.pc) : MSPot.pc :=
+  match q with
+  | PFwdLoop => MSPot.PFwdLoop | PFwdLast => MSPot.PFwdLast | PEndFwd => MSPot.PEndFwd | PRevHead => MSPot.PRevHead
+  | PAfterCopy => MSPot.PAfterCopy | PInner => MSPot.PInner | PAdj => MSPot.PAdj | PRevAct => MSPot.PRevAct
+  | PDone | PFinished => MSPot.PDone end.
+Definition toP (s : st) : MSPot.st := {| MSPot.pcv := pcP (pcv s); MSPot.n_ := n_ s; MSPot.r_ := r_ s; MSPot.snaps := snaps s |}.
+Notation PInv := (MSPot.Inv (Inst.TC tj) N S_ lb).
+Notation Pres := (MSPot.resume (Inst.advC tj) N S_ lb).
+
+Lemma nadv_ok m k : 1 <= m -> 1 <= k -> nadv m k tj = Ok (Inst.advC tj m k).
+Proof. intros Hm Hk. unfold nadv. rewrite (Inst.advC_spec tj m k Hm Hk). reflexivity. Qed.
+
+Lemma Pstep_ok s x : PInv (toP s) x ->
+  match Pres (toP s) with
+  | (s', MSPot.Act a) => exists x', MSPot.exec N x a = Some x' /\ PInv s' x'
+  | (s', MSPot.Stop) => MSPot.pcv (toP s) = MSPot.PDone
+  | (_, MSPot.Raise) => False
+  end.
+Proof.
+  intros HI. exact (MSPot.step_ok (Inst.advC tj) (Inst.advC_range tj) (Inst.advC_one tj) (Inst.TC tj) (Inst.TC_1 tj) (Inst.TC_rec tj)
+                      N S_ HN lb lb_cp (toP s) x HI).
+Qed.
+
+(* the shapes of the actions the machine emits, with the position they name *)
+Definition emitted (a : action) : Prop :=
+  match a with
+  | Forward n0 n1 wi wa sg => 0 <= n0 /\ ((wi = true /\ wa = false /\ is_cp sg = true) \/ (wi = false /\ sg = WORK))
+  | Reverse n1 n0 cl => 0 <= n0 /\ cl = true
+  | Copy n sg dst | Move n sg dst => 0 <= n /\ is_cp sg = true /\ dst = WORK
+  | EndForward | EndReverse => True end.
+Definition n_after (a : action) (n : Z) : Z :=
+  match a with Forward _ n1 _ _ _ => n1 | Copy k _ _ | Move k _ _ => k | _ => n end.
+
+(* (1) the extracted machine takes the step of the proved machine *)
+Lemma next_agrees s x : PInv (toP s) x -> pcv s <> PDone -> pcv s <> PFinished ->
+  exists s' a, Multistage.next c s = (s', Yield a) /\ Pres (toP s) = (toP s', MSPot.Act a) /\ pcv s' <> PFinished /\
+               exhausted s' = (match a with EndReverse => true | _ => false end) /\
+               (exhausted s' = true <-> pcv s' = PDone) /\
+               emitted a /\ n_ s' = n_after a (n_ s).
+Proof.
+  intros HI Hd Hf. pose proof (Pstep_ok s x HI) as Hstep.
+  destruct HI as (HPhi & Hrr & Hlen & Hr & Hpc).
+  destruct s as [q n r sn e]. unfold toP in *. cbn [pcv n_ r_ snaps MSPot.pcv MSPot.n_ MSPot.r_ MSPot.snaps] in *.
+  assert (HlenS : len sn <= S_) by (unfold MSPot.len in Hlen; unfold len; exact Hlen).
+  unfold Multistage.next. cbn [Multistage.resume pcv n_ r_ snaps].
+  destruct q; cbn [pcP] in *; try congruence.
+  - (* PFwdLoop *)
+    destruct Hpc as (Hr0 & Hef & Hfw & Hwi & Hwd & Hn & Hfree & _).
+    unfold MSPot.resume in *. cbn [MSPot.pcv MSPot.n_ MSPot.r_ MSPot.snaps] in *.
+    fold N. destruct (Z.ltb_spec n (N - 1)) as [Hlt|Hge].
+    + specialize (Hfree Hlt). unfold MSPot.free, MSPot.len in *. cbn [MSPot.snaps] in *.
+      destruct (Z.ltb_spec (S_ - Z.of_nat (length sn)) 1); [lia|].
+      fold S_. unfold len. rewrite nadv_ok by lia.
+      destruct (Z.geb_spec (Z.of_nat (length sn)) S_); [lia|].
+      rewrite label_ok by (unfold S_, total in *; lia).
+      eexists _, _. split; [reflexivity|]. split; [reflexivity|]. split; [discriminate|]. split; [reflexivity|]. split; [split; discriminate|].
+      split; [|reflexivity]. cbn. split; [lia|]. left. auto using lb_is_cp.
+    + destruct (Z.eqb_spec n (N - 1)); [|lia]. cbn [negb].
+      eexists _, _. split; [reflexivity|]. split; [reflexivity|]. split; [discriminate|]. split; [reflexivity|]. split; [split; discriminate|].
+      split; [|reflexivity]. cbn. split; [lia|]. right. auto.
+  - eexists _, _. split; [reflexivity|]. split; [reflexivity|]. split; [discriminate|]. split; [reflexivity|]. split; [split; discriminate|].
+    split; [exact I|reflexivity].
+  - destruct Hpc as (Hr0 & Hn & _).
+    eexists _, _. split; [reflexivity|]. split; [reflexivity|]. split; [discriminate|]. split; [reflexivity|]. split; [split; discriminate|].
+    split; [|reflexivity]. cbn. split; [lia|reflexivity].
+  - (* PRevHead *)
+    destruct Hpc as (Hr1 & Hef & Hwi & Hwd & Hm & Hb).
+    unfold MSPot.resume in *. cbn [MSPot.pcv MSPot.n_ MSPot.r_ MSPot.snaps] in *. fold N.
+    destruct (Z.ltb_spec r N) as [Hlt|Hge].
+    + destruct sn as [|cp rest]; [contradiction|].
+      pose proof (MSPot.mirror_lt _ _ _ _ Hm cp (or_introl eq_refl)) as Hcp.
+      rewrite label_ok by (unfold S_, total, len in *; cbn [length] in *; lia).
+      destruct (Z.eqb_spec cp (N - r - 1));
+        (eexists _, _; split; [reflexivity|]; split; [reflexivity|]; split; [discriminate|]; split; [reflexivity|]; split; [split; discriminate|];
+         split; [|reflexivity]; cbn; split; [lia|]; split; [apply lb_is_cp|reflexivity]).
+    + destruct (Z.eqb_spec r N); cbn [negb] in *; [|contradiction].
+      destruct sn; [|contradiction].
+      eexists _, _. split; [reflexivity|]. split; [reflexivity|]. split; [discriminate|]. split; [reflexivity|]. split; [split; reflexivity|].
+      split; [exact I|reflexivity].
+  - (* PAfterCopy *)
+    destruct Hpc as (Hr1 & Hef & Hwd & Hfw & Hm & Hb & (r1 & Hsn) & Hlt).
+    pose proof (MSPot.mirror_lt _ _ _ _ Hm n ltac:(rewrite Hsn; left; reflexivity)) as Hn0.
+    unfold MSPot.resume in *. cbn [MSPot.pcv MSPot.n_ MSPot.r_ MSPot.snaps] in *. fold N S_.
+    unfold MSPot.free, MSPot.len in *. cbn [MSPot.snaps] in *. unfold len.
+    destruct (Z.ltb_spec (S_ - Z.of_nat (length sn) + 1) 1); [contradiction|].
+    rewrite nadv_ok by lia.
+    eexists _, _. split; [reflexivity|]. split; [reflexivity|]. split; [discriminate|]. split; [reflexivity|]. split; [split; discriminate|].
+    split; [|reflexivity]. cbn. split; [lia|]. right. auto.
+  - (* PInner *)
+    destruct Hpc as (Hr1 & Hef & Hwi & Hwd & Hfw & Hn & Hfree & _).
+    unfold MSPot.resume in *. cbn [MSPot.pcv MSPot.n_ MSPot.r_ MSPot.snaps] in *. fold N.
+    destruct (Z.ltb_spec n (N - r - 1)) as [Hlt|Hge].
+    + specialize (Hfree Hlt). unfold MSPot.free, MSPot.len in *. cbn [MSPot.snaps] in *.
+      destruct (Z.ltb_spec (S_ - Z.of_nat (length sn)) 1); [lia|].
+      fold S_. unfold len. rewrite nadv_ok by lia.
+      destruct (Z.geb_spec (Z.of_nat (length sn)) S_); [lia|].
+      rewrite label_ok by (unfold S_, total in *; lia).
+      eexists _, _. split; [reflexivity|]. split; [reflexivity|]. split; [discriminate|]. split; [reflexivity|]. split; [split; discriminate|].
+      split; [|reflexivity]. cbn. split; [lia|]. left. auto using lb_is_cp.
+    + destruct (Z.eqb_spec n (N - r - 1)); [|lia]. cbn [negb Multistage.resume pcv n_ r_ snaps].
+      eexists _, _. split; [reflexivity|]. split; [reflexivity|]. split; [discriminate|]. split; [reflexivity|]. split; [split; discriminate|].
+      split; [|reflexivity]. cbn. split; [lia|]. right. auto.
+  - destruct Hpc as (Hr1 & Hef & Hwd & Hfw & Hn0 & _).
+    eexists _, _. split; [reflexivity|]. split; [reflexivity|]. split; [discriminate|]. split; [reflexivity|]. split; [split; discriminate|].
+    split; [|reflexivity]. cbn. split; [lia|]. right. auto.
+  - destruct Hpc as (Hr1 & Hef & Hwi & Hwd & Hn1 & _).
+    eexists _, _. split; [reflexivity|]. split; [reflexivity|]. split; [discriminate|]. split; [reflexivity|]. split; [split; discriminate|].
+    split; [|reflexivity]. cbn. split; [lia|reflexivity].
+Qed.
+
+(* (2) the stores: MSPot's single store, labelled by stack position, against the RAM and DISK stores of Exec *)
+Definition Rx (x : MSPot.xst) (X : xstate) : Prop :=
+  fwd X = MSPot.fwd x /\ w_ics X = MSPot.wics x /\ w_deps X = MSPot.wdeps x /\ rr X = MSPot.rr x /\
+  seen_endfwd X = MSPot.endfwd x /\ ram X = proj RAM (MSPot.store x) /\ disk X = proj DISK (MSPot.store x).
+
+Lemma mirror_labelled : forall sn stv a, MSPot.mirror lb sn stv a -> (length sn <= length (labels c))%nat -> labelled (labels c) stv.
+Proof.
+  induction sn as [|p sn IH]; intros [|[k [l [a0 e]]] stv] a Hm Hl; cbn [MSPot.mirror] in Hm; try contradiction; [apply labelled_nil|].
+  destruct Hm as (-> & -> & -> & _ & _ & _ & Hm). cbn [length] in Hl.
+  pose proof (MSPot.mirror_len _ _ _ _ Hm) as Hlen. rewrite Hlen.
+  apply labelled_push; [apply (IH _ _ Hm); lia|unfold sentry in *; lia].
+Qed.
+Lemma PInv_labelled q x : PInv q x -> labelled (labels c) (MSPot.store x).
+Proof.
+  intros (_ & _ & Hlen & _ & Hpc). unfold MSPot.len in Hlen.
+  assert (Hl : (length (MSPot.snaps q) <= length (labels c))%nat) by (unfold S_, total in Hlen; lia).
+  destruct (MSPot.pcv q).
+  - destruct Hpc as (_ & _ & _ & _ & _ & _ & _ & _ & _ & [[_ ->]|(_ & Hm & _)]); [apply labelled_nil|eapply mirror_labelled; eauto].
+  - destruct Hpc as (_ & _ & _ & _ & _ & _ & Hm & _). eapply mirror_labelled; eauto.
+  - destruct Hpc as (_ & _ & _ & _ & _ & _ & Hm & _). eapply mirror_labelled; eauto.
+  - destruct Hpc as (_ & _ & _ & _ & Hm & _). eapply mirror_labelled; eauto.
+  - destruct Hpc as (_ & _ & _ & _ & Hm & _). eapply mirror_labelled; eauto.
+  - destruct Hpc as (_ & _ & _ & _ & _ & _ & _ & Hm & _). eapply mirror_labelled; eauto.
+  - destruct Hpc as (_ & _ & _ & _ & _ & _ & Hm & _). eapply mirror_labelled; eauto.
+  - destruct Hpc as (_ & _ & _ & _ & _ & _ & Hm & _). eapply mirror_labelled; eauto.
+  - destruct Hpc as (_ & _ & ->). apply labelled_nil.
+Qed.
+Lemma budget_ok sg (st : list sentry) : sg = RAM \/ sg = DISK -> labelled (labels c) st -> (length st < length (labels c))%nat ->
+  sg = lb (length st) -> within (budget pms sg) (len (proj sg st) + 1) = true.
+Proof.
+  intros Hsg Hl Hlt Heq. rewrite (len_proj_labelled _ sg st Hl).
+  pose proof (count_firstn (labels c) sg (S (length st)) ltac:(lia)) as Hc.
+  rewrite (firstn_snoc DISK) in Hc by exact Hlt. rewrite filter_app, app_length in Hc. cbn [filter] in Hc.
+  change (nth (length st) (labels c) DISK) with (lb (length st)) in Hc. rewrite <- Heq, st_eqb_refl in Hc. cbn [length] in Hc.
+  destruct Hsg as [-> | ->]; cbn [budget pms budget_ram budget_disk within]; apply Z.leb_le; lia.
+Qed.
+
+Lemma exec_agrees x X a x' exh : Rx x X -> emitted a -> MSPot.exec N x a = Some x' ->
+  labelled (labels c) (MSPot.store x') -> 0 <= MSPot.rr x ->
+  (a = EndReverse -> exh = true) ->
+  check pms true exh X a = None /\ Rx x' (apply pms exh X a).
+Proof.
+  intros (Rf & Rwi & Rwd & Rrr & Rse & Rram & Rdisk) Hem Hex Hlab' Hrr0 Hexh.
+  destruct a as [n0 n1 wi wa sg|n1 n0 cl|n src dst|n src dst| |]; cbn [emitted] in Hem.
+  - destruct Hem as [Hn0 [(-> & -> & Hcp)|(-> & ->)]].
+    + (* write a restart checkpoint *)
+      destruct (pexec_fwd_cp N x n0 n1 sg x' Hcp Hex) as (Hf & Hn & Hlk & ->). cbn [MSPot.store] in Hlab'.
+      destruct (labelled_pop _ _ _ Hlab') as (Hl0 & Hsg & Hlt). cbn [fst snd] in Hsg.
+      assert (Hsgcp : sg = RAM \/ sg = DISK) by (destruct sg; cbn in Hcp; auto; discriminate).
+      assert (Hmin : Z.min n1 N = n1) by lia.
+      split.
+      * unfold check. cbn [xN pms keep_all_deps]. rewrite Hmin, Rrr. unfold fwd_is. rewrite Rf, Hf, Hcp.
+        assert (Ew : st_eqb sg WORK = false) by (destruct Hsgcp as [-> | ->]; reflexivity).
+        assert (En : st_eqb sg NONE = false) by (destruct Hsgcp as [-> | ->]; reflexivity).
+        rewrite Ew, En. cbn [andb orb negb].
+        unfold can_put. rewrite Hcp.
+        assert (Hsel : sel X sg = proj sg (MSPot.store x)) by (destruct Hsgcp as [-> | ->]; cbn [sel]; assumption).
+        rewrite Hsel, (proj_lookup_none _ _ _ Hlk), (budget_ok sg _ Hsgcp Hl0 Hlt Hsg). cbn [isnone app].
+        repeat (rewrite first_err_ok; [|bool_true; try lia; auto]). reflexivity.
+      * unfold apply. cbn [xN pms]. rewrite Hmin.
+        assert (Ew : st_eqb sg WORK = false) by (destruct Hsgcp as [-> | ->]; reflexivity). rewrite Ew. cbn [andb].
+        unfold put. rewrite Hcp. unfold Rx.
+        cbn [set_cnt set_store set_work fwd w_ics w_deps rr seen_endfwd ram disk MSPot.fwd MSPot.wics MSPot.wdeps MSPot.rr MSPot.endfwd MSPot.store sel].
+        destruct Hsgcp as [-> | ->]; cbn [sel set_work ram disk];
+          rewrite ?proj_cons_same, ?(proj_cons_other RAM DISK), ?(proj_cons_other DISK RAM) by discriminate;
+          repeat split; auto; rewrite ?Rram, ?Rdisk; reflexivity.
+    + (* advance in WORK *)
+      destruct (pexec_fwd_work N x n0 n1 wa x' Hex) as (Hf & Hn & Hwa & ->).
+      assert (Hmin : Z.min n1 N = n1) by lia.
+      split.
+      * unfold check. cbn [xN pms keep_all_deps]. rewrite Hmin, Rrr. unfold fwd_is. rewrite Rf, Hf.
+        cbn [is_cp st_eqb andb orb negb can_put app].
+        repeat (rewrite first_err_ok; [|bool_true; try lia; auto]).
+        all: try reflexivity.
+        destruct wa; [|reflexivity]. destruct (Hwa eq_refl) as [E1 E2]. rewrite <- E2, E1, !Z.eqb_refl. reflexivity.
+      * unfold apply. cbn [xN pms]. rewrite Hmin. cbn [st_eqb andb put is_cp]. unfold Rx.
+        cbn [set_cnt set_work fwd w_ics w_deps rr seen_endfwd ram disk MSPot.fwd MSPot.wics MSPot.wdeps MSPot.rr MSPot.endfwd MSPot.store].
+        repeat split; auto; try congruence.
+  - destruct Hem as [Hn0 ->]. destruct (pexec_rev N x n1 n0 true x' Hex) as (Hse & Hn1 & Hlt & Hcov & ->).
+    split.
+    + unfold check. cbn [xN pms]. rewrite Rse, Hse, Rrr, Rwd.
+      assert (Hcov' : covers (MSPot.wdeps x) n0 n1 = true) by exact Hcov. rewrite Hcov'.
+      repeat (rewrite first_err_ok; [|bool_true; try lia; auto]). reflexivity.
+    + unfold apply, set_rr, Rx. cbn [fwd w_ics w_deps rr seen_endfwd ram disk MSPot.fwd MSPot.wics MSPot.wdeps MSPot.rr MSPot.endfwd MSPot.store].
+      repeat split; auto; try congruence.
+  - (* Copy *)
+    destruct Hem as (Hn & Hcp & ->).
+    destruct (pexec_load N x false n src x' Hex) as (Hse & Hwi & Hwd & b0 & Hlk & Hb & ->).
+    assert (Hsgcp : src = RAM \/ src = DISK) by (destruct src; cbn in Hcp; auto; discriminate).
+    assert (Hsel : sel X src = proj src (MSPot.store x)) by (destruct Hsgcp as [-> | ->]; cbn [sel]; assumption).
+    split.
+    + unfold check. cbn [xN pms keep_all_deps]. rewrite Hcp, Rse, Hse, Rwi, Hwi, Rwd, Hwd, Rrr, Hsel, (proj_lookup_some _ _ _ _ Hlk).
+      cbn [cp_ics cp_deps wlen isnone negb andb orb covers app].
+      repeat (rewrite first_err_ok; [|bool_true; try lia; auto]).
+      all: try reflexivity.
+      all: try (right; bool_true; lia).
+    + unfold apply. rewrite Hsel, (proj_lookup_some _ _ _ _ Hlk). cbn [cp_ics cp_deps].
+      assert (Hr : (n <=? n) && (n <? b0) = true) by (bool_true; lia). rewrite Hr. unfold Rx.
+      cbn [set_cnt set_work fwd w_ics w_deps rr seen_endfwd ram disk MSPot.fwd MSPot.wics MSPot.wdeps MSPot.rr MSPot.endfwd MSPot.store].
+      repeat split; auto; try congruence.
+  - (* Move *)
+    destruct Hem as (Hn & Hcp & ->).
+    destruct (pexec_load N x true n src x' Hex) as (Hse & Hwi & Hwd & b0 & Hlk & Hb & ->).
+    assert (Hsgcp : src = RAM \/ src = DISK) by (destruct src; cbn in Hcp; auto; discriminate).
+    assert (Hsel : sel X src = proj src (MSPot.store x)) by (destruct Hsgcp as [-> | ->]; cbn [sel]; assumption).
+    split.
+    + unfold check. cbn [xN pms keep_all_deps]. rewrite Hcp, Rse, Hse, Rwi, Hwi, Rwd, Hwd, Rrr, Hsel, (proj_lookup_some _ _ _ _ Hlk).
+      cbn [cp_ics cp_deps wlen isnone negb andb orb covers app].
+      repeat (rewrite first_err_ok; [|bool_true; try lia; auto]).
+      all: try reflexivity.
+      all: try (right; bool_true; lia).
+    + unfold apply. rewrite Hsel, (proj_lookup_some _ _ _ _ Hlk). cbn [cp_ics cp_deps].
+      assert (Hr : (n <=? n) && (n <? b0) = true) by (bool_true; lia). rewrite Hr. unfold Rx.
+      destruct Hsgcp as [-> | ->];
+        cbn [set_cnt set_store set_work fwd w_ics w_deps rr seen_endfwd ram disk MSPot.fwd MSPot.wics MSPot.wdeps MSPot.rr MSPot.endfwd MSPot.store];
+        rewrite ?(proj_remove_same _ _ _ _ Hlk), ?(proj_remove_other _ DISK _ _ _ Hlk), ?(proj_remove_other _ RAM _ _ _ Hlk) by discriminate;
+        repeat split; auto; try congruence.
+  - destruct (pexec_endfwd N x x' Hex) as (Hse & Hf & ->).
+    split.
+    + unfold check. cbn [xN pms]. unfold fwd_is. rewrite Rse, Hse, Rf, Hf, Z.eqb_refl. reflexivity.
+    + unfold apply, Rx. cbn [fwd w_ics w_deps rr seen_endfwd ram disk MSPot.fwd MSPot.wics MSPot.wdeps MSPot.rr MSPot.endfwd MSPot.store]. repeat split; auto; try congruence.
+  - destruct (pexec_endrev N x x' Hex) as (Hse & Hrr & Hst & ->). rewrite (Hexh eq_refl).
+    split.
+    + unfold check. cbn [xN pms]. rewrite Rse, Hse, Rrr, Hrr, Z.eqb_refl, Rram, Rdisk, Hst. reflexivity.
+    + unfold apply, Rx. cbn [fwd w_ics w_deps rr seen_endfwd ram disk]. repeat split; auto; try congruence.
+Qed.
+
+Lemma pexec_fwd_after x a x' n : emitted a -> MSPot.exec N x a = Some x' -> MSPot.fwd x = Some n -> MSPot.fwd x' = Some (n_after a n).
+Proof.
+  intros Hem Hex Hf. destruct a as [n0 n1 wi wa sg|n1 n0 cl|k src dst|k src dst| |]; cbn [emitted n_after] in *.
+  - destruct Hem as [_ [(-> & -> & Hcp)|(-> & ->)]].
+    + destruct (pexec_fwd_cp N x n0 n1 sg x' Hcp Hex) as (_ & _ & _ & ->). reflexivity.
+    + destruct (pexec_fwd_work N x n0 n1 wa x' Hex) as (_ & _ & _ & ->). reflexivity.
+  - destruct Hem as [_ ->]. destruct (pexec_rev N x n1 n0 true x' Hex) as (_ & _ & _ & _ & ->). exact Hf.
+  - destruct Hem as (_ & _ & ->). destruct (pexec_load N x false k src x' Hex) as (_ & _ & _ & b0 & _ & _ & ->). reflexivity.
+  - destruct Hem as (_ & _ & ->). destruct (pexec_load N x true k src x' Hex) as (_ & _ & _ & b0 & _ & _ & ->). reflexivity.
+  - destruct (pexec_endfwd N x x' Hex) as (_ & _ & ->). exact Hf.
+  - destruct (pexec_endrev N x x' Hex) as (_ & _ & _ & ->). exact Hf.
+Qed.
+
+(* ---------- the monitored client ---------- *)
+Variable cr cd : Z.                 (* the unit counts the object reports through uses_storage_type *)
+Definition msched (s : st) (stt : bool) : sched := {| ob := OMulti c s cr cd; started := stt |}.
+Inductive J : sched -> mon -> Prop :=
+ | Jrun s stt m x : pcv s <> PDone -> pcv s <> PFinished -> mon_ok m -> PInv (toP s) x -> Rx x (mx m) ->
+     MSPot.fwd x = Some (n_ s) -> exhausted s = false -> J (msched s stt) m
+ | Jdone s stt m : (pcv s = PDone \/ pcv s = PFinished) -> mon_ok m -> J (msched s stt) m.
+
+Lemma J_step sch m : J sch m -> mon_ok m -> good_step pms J sch m.
+Proof.
+  intros HJ _. unfold good_step. inversion HJ as [s stt m0 x Hd Hf Hm HI HR Hfw Hex|s stt m0 Hpc Hm]; subst; clear HJ.
+  - destruct (next_agrees s x HI Hd Hf) as (s' & a & Hnext & Hres & Hf' & Hexh & Hexd & Hem & Hn').
+    pose proof (Pstep_ok s x HI) as Hstep. rewrite Hres in Hstep. destruct Hstep as (x' & Hpex & HI').
+    unfold Sched.next, msched. cbn [ob]. rewrite Hnext.
+    set (sch' := {| ob := OMulti c s' cr cd; started := true |}).
+    assert (Hrr0 : 0 <= MSPot.rr x) by (destruct HI as (_ & Hrrx & _ & Hr0 & _); rewrite Hrrx; cbn [toP MSPot.r_] in *; lia).
+    destruct (exec_agrees x (mx m) a x' (is_exhausted sch') HR Hem Hpex (PInv_labelled _ _ HI') Hrr0) as (Hchk & HR').
+    { intros ->. subst sch'. cbn [is_exhausted ob]. exact Hexh. }
+    assert (Hexec : exec pms (negb (isnone (get_max_n sch'))) (is_exhausted sch') (mx m) a = inl (apply pms (is_exhausted sch') (mx m) a))
+      by (apply exec_ok; exact Hchk).
+    pose proof (pexec_fwd_after x a x' (n_ s) Hem Hpex Hfw) as Hfw'. rewrite <- Hn' in Hfw'.
+    destruct HR' as (Rf & Rwi & Rwd & Rrr & Rse & Rram & Rdisk).
+    destruct HI' as (HPhi' & Hrr' & HI'rest).
+    destruct m as [X merr cnt0]. unfold mon_ok in Hm. cbn [merr_] in Hm. subst merr.
+    rewrite (mon_step_ok pms sch' a {| mx := X; merr_ := None; mcount := cnt0 |} _ eq_refl Hexec).
+    + split; [reflexivity|].
+      destruct (exhausted s') eqn:Ee.
+      * apply Jdone; [left; apply Hexd; reflexivity|reflexivity].
+      * eapply (Jrun s' true _ x'); try assumption.
+        -- intros Hp. apply Hexd in Hp. congruence.
+        -- reflexivity.
+        -- split; [exact HPhi'|]. split; [exact Hrr'|exact HI'rest].
+        -- cbn [mx]. repeat split; assumption.
+    + rewrite Rf, Hfw'. cbn [get_max_n sch' ob isnone andb get_n]. apply Z.eqb_refl.
+    + cbn [get_r sch' ob]. rewrite Rrr. cbn [toP MSPot.r_] in Hrr'. symmetry. exact Hrr'.
+    + cbn [get_max_n sch' ob oz_ok xN pms]. apply Z.eqb_refl.
+  - unfold Sched.next, msched. cbn [ob]. unfold Multistage.next.
+    assert (Hr : Multistage.resume 3 c s = (s, StopIteration)) by (destruct s as [q n r sn e]; cbn [pcv] in Hpc; destruct Hpc as [-> | ->]; reflexivity).
+    rewrite Hr. apply (Jdone _ true); [right; reflexivity|exact Hm].
+Qed.
+
+(* every run of next() on a Multistage object built on this configuration: no executor error, n / r / max_n agree, no exception *)
+Theorem multistage_cfg_run : forall k,
+  let '(_, m, ls) := run_ops pms (msched init false) mon0 (repeat Next k) in mon_ok m /\ no_raise ls.
+Proof.
+  intros k.
+  assert (HJ0 : J (msched init false) mon0).
+  { apply (Jrun init false mon0 (MSPot.init_x)); try discriminate; try reflexivity.
+    - pose proof (MSPot.inv_init (Inst.TC tj) N S_ HN) as H0. exact (H0 HS S_nonneg lb).
+    - repeat split; reflexivity. }
+  pose proof (run_nexts pms J J_step k _ _ HJ0 eq_refl) as H.
+  destruct (run_ops pms (msched init false) mon0 (repeat Next k)) as [[s' m'] ls]. destruct H as (_ & H1 & H2). split; assumption.
+Qed.
+End BRIDGE.
+Print Assumptions multistage_cfg_run.
